@@ -70,8 +70,11 @@ func (e *Engine) call(fr *frame, st *State, c *ast.CallExpr, k func(st *State, r
 		case "len":
 			e.eval(fr, st, c.Args[0], func(st *State, v Val) {
 				n := lenOf(v)
-				if v.Ty.K == spec.KList { // program values are well-formed lists (a fact about this value, not an axiom on the sort)
+				if v.Ty.K == spec.KList || (e.Go64 && v.Ty.K == spec.KMap) { // program values are well-formed lists (a fact about this value, not an axiom on the sort)
 					st.facts = append(st.facts, sx.App(">=", n, sx.Int(0)))
+				}
+				if e.Go64 && !isNumeral(n) { // a length is an int
+					st.facts = append(st.facts, sx.App("<=", n, sx.IntS("9223372036854775807")))
 				}
 				k(st, []Val{mk(n, spec.KInt)})
 			})
@@ -180,6 +183,21 @@ func (e *Engine) call(fr *frame, st *State, c *ast.CallExpr, k func(st *State, r
 			})
 		case "panic":
 			e.fault(fr, st, "panic")
+		case "clear":
+			// clear(m): the variable holds an empty map afterwards (clear of a nil map is a no-op: also empty)
+			if id, ok := c.Args[0].(*ast.Ident); ok {
+				if ty := e.typeOf(info.Types[c.Args[0]].Type); ty.K == spec.KMap {
+					m := e.freshOf(ty, "map")
+					st.facts = append(st.facts, sx.App("=", lenOf(m), sx.Int(0)))
+					obj := info.Uses[id]
+					if _, local := st.vars[obj]; local {
+						st.vars[obj] = m
+						k(st, nil)
+						return
+					}
+				}
+			}
+			panic("clear of something other than a local map variable")
 		default:
 			panic("unsupported builtin " + b.Name())
 		}
@@ -187,6 +205,11 @@ func (e *Engine) call(fr *frame, st *State, c *ast.CallExpr, k func(st *State, r
 	}
 	if vobj, isVar := obj.(*types.Var); isVar {
 		if _, isSig := vobj.Type().Underlying().(*types.Signature); isSig {
+			if lv, ok := e.lookup(fr, st, vobj); ok && lv.Fn != nil {
+				// a local variable bound to a function literal: run the literal's body in place (it shares the variables it captures)
+				e.inlineLit(fr, st, lv.Fn, c.Args, k)
+				return
+			}
 			// call of a function-typed parameter: recorded in the ghost log named after the parameter
 			e.evalList(fr, st, c.Args, func(st *State, vs []Val) {
 				ev := spec.Event{Name: vobj.Name()}
@@ -449,10 +472,72 @@ func (e *Engine) call(fr *frame, st *State, c *ast.CallExpr, k func(st *State, r
 			// (a function handing out a storage iterator is a thin wrapper around storage.Find: callers inline it, its
 			// own contract states which snapshot the iterator walks)
 			if !fr.ver.explicitFaults || fs.Nofault {
+				if e.Go64 && !fs.Pure {
+					// a struct the callee reaches through a pointer parameter holds, after the call, whatever the contract says
+					// about cur(p) - an otherwise unconstrained value
+					recvPtr := false
+					if r := fn.Type().(*types.Signature).Recv(); r != nil {
+						_, recvPtr = r.Type().Underlying().(*types.Pointer)
+					}
+					if targets := e.pointerTargets(fr, argExprs, recvPtr); len(targets) > 0 {
+						pnames, pobjs := paramNames(decl, e.fpkg[fn].TypesInfo)
+						cur := map[string]spec.TV{}
+						type wbT struct {
+							lv ast.Expr
+							v  Val
+						}
+						var wbs []wbT
+						for _, t := range targets {
+							if t.idx >= len(pobjs) || pobjs[t.idx] == nil {
+								continue
+							}
+							if _, isPtr := pobjs[t.idx].Type().Underlying().(*types.Pointer); !isPtr {
+								continue
+							}
+							fv := e.freshOf(e.typeOf(fr.info.Types[t.lv].Type), "cur")
+							cur["$cur."+pnames[t.idx]] = fv.TV
+							wbs = append(wbs, wbT{t.lv, fv})
+						}
+						e.curOverride = cur
+						e.applyContract(fr, st, fn, decl, fs, vs, func(st *State, rets []Val) {
+							for _, w := range wbs {
+								if e.assignable(fr, st, w.lv) {
+									e.assign(fr, st, w.lv, w.v)
+								}
+							}
+							k(st, rets)
+						})
+						return
+					}
+				}
 				e.applyContract(fr, st, fn, decl, fs, vs, k)
 				return
 			}
 			// a nofault proof must see the callee's fault sites: no nofault contract there, so inline it
+		}
+		if e.Go64 {
+			recvPtr := false
+			if r := fn.Type().(*types.Signature).Recv(); r != nil {
+				_, recvPtr = r.Type().Underlying().(*types.Pointer)
+			}
+			if targets := e.pointerTargets(fr, argExprs, recvPtr); len(targets) > 0 {
+				_, pobjs := paramNames(decl, e.fpkg[fn].TypesInfo)
+				e.inlineWB(fr, st, fn, decl, vs, func(st *State, final map[types.Object]Val) {
+					// what the callee did to the pointee of a pointer parameter is what the caller's variable holds afterwards
+					for _, t := range targets {
+						if t.idx >= len(pobjs) || pobjs[t.idx] == nil {
+							continue
+						}
+						if _, isPtr := pobjs[t.idx].Type().Underlying().(*types.Pointer); !isPtr {
+							continue
+						}
+						if fv, ok := final[pobjs[t.idx]]; ok && fv.T != nil && e.assignable(fr, st, t.lv) {
+							e.assign(fr, st, t.lv, fv)
+						}
+					}
+				}, k)
+				return
+			}
 		}
 		e.inline(fr, st, fn, decl, vs, k)
 	})
@@ -486,12 +571,104 @@ func (e *Engine) externalCall(fr *frame, st *State, c *ast.CallExpr, fn *types.F
 		e.xappend(st, name, ev)
 		st.dirty = true
 		e.havocAddressed(fr, st, argExprs)
+		if pn := fn.Pkg().Name(); pn != "zap" && pn != "fmt" && pn != "errors" {
+			// unverified code may change a struct it reaches through a pointer argument or its pointer receiver (the logging
+			// and formatting libraries are assumed not to, A10)
+			recvPtr := false
+			if r := sig.Recv(); r != nil {
+				_, recvPtr = r.Type().Underlying().(*types.Pointer)
+			}
+			for _, t := range e.pointerTargets(fr, argExprs, recvPtr) {
+				if _, amp := argExprs[t.idx].(*ast.UnaryExpr); amp {
+					continue // done by havocAddressed
+				}
+				if !e.assignable(fr, st, t.lv) {
+					continue
+				}
+				e.assign(fr, st, t.lv, e.freshOf(e.typeOf(fr.info.Types[t.lv].Type), "ptr"))
+			}
+		}
 		var rets []Val
 		for i := 0; i < sig.Results().Len(); i++ {
 			rets = append(rets, e.freshOf(e.typeOf(sig.Results().At(i).Type()), "ext"))
 		}
 		k(st, rets)
 	})
+}
+
+// ptrTarget is an argument through which a callee can change a struct of the caller: parameter index and the place.
+type ptrTarget struct {
+	idx int
+	lv  ast.Expr
+}
+
+// pointerTargets lists the arguments of a call whose static type is a pointer to a struct the model knows (or the
+// addressable receiver of a pointer-receiver method): a pointer is identified with its pointee (dialect go64), so what
+// the callee does to the pointee must flow back into the caller's variable.
+func (e *Engine) pointerTargets(fr *frame, argExprs []ast.Expr, recvPtr bool) []ptrTarget {
+	var out []ptrTarget
+	for i, a := range argExprs {
+		lv := a
+		if u, ok := a.(*ast.UnaryExpr); ok && u.Op == token.AND {
+			lv = u.X
+		} else {
+			tv, ok := fr.info.Types[a]
+			if !ok || tv.Type == nil {
+				continue
+			}
+			_, isPtr := tv.Type.Underlying().(*types.Pointer)
+			if !isPtr && !(i == 0 && recvPtr) {
+				continue
+			}
+		}
+		switch lv.(type) {
+		case *ast.Ident, *ast.SelectorExpr, *ast.IndexExpr:
+		default:
+			continue
+		}
+		if id, ok := lv.(*ast.Ident); ok && (id.Name == "nil" || id.Name == "_") {
+			continue
+		}
+		tv, ok := fr.info.Types[lv]
+		if !ok || tv.Type == nil {
+			continue
+		}
+		isStruct := false
+		func() {
+			defer func() { recover() }()
+			isStruct = e.typeOf(tv.Type).K == spec.KStruct
+		}()
+		if !isStruct {
+			continue
+		}
+		out = append(out, ptrTarget{i, lv})
+	}
+	return out
+}
+
+// assignable reports whether the place is rooted in a variable the state binds (not a package-level library object).
+func (e *Engine) assignable(fr *frame, st *State, lv ast.Expr) bool {
+	for {
+		switch t := lv.(type) {
+		case *ast.SelectorExpr:
+			lv = t.X
+		case *ast.IndexExpr:
+			lv = t.X
+		case *ast.ParenExpr:
+			lv = t.X
+		case *ast.StarExpr:
+			lv = t.X
+		case *ast.Ident:
+			obj := fr.info.Uses[t]
+			if obj == nil {
+				obj = fr.info.Defs[t]
+			}
+			_, ok := st.vars[obj]
+			return ok
+		default:
+			return false
+		}
+	}
 }
 
 // havocAddressed: after a call of unverified code, every variable or field whose address was passed (&x) holds an
@@ -562,6 +739,11 @@ func paramNames(decl *ast.FuncDecl, info *types.Info) (names []string, objs []ty
 }
 
 func (e *Engine) inline(caller *frame, st *State, fn *types.Func, decl *ast.FuncDecl, args []Val, k func(st *State, rets []Val)) {
+	e.inlineWB(caller, st, fn, decl, args, nil, k)
+}
+
+// inlineWB is inline with a hook that sees the callee's variables at its (merged) exit before the caller's are restored.
+func (e *Engine) inlineWB(caller *frame, st *State, fn *types.Func, decl *ast.FuncDecl, args []Val, wb func(st *State, final map[types.Object]Val), k func(st *State, rets []Val)) {
 	if e.Sweep && caller.onStack(fn) {
 		// sweep mode, recursive call: results are unknown; a callee that may write makes the state dirty
 		if e.mayWrite(fn, 0) {
@@ -598,8 +780,42 @@ func (e *Engine) inline(caller *frame, st *State, fn *types.Func, decl *ast.Func
 		nf.onRet = kk
 		e.stmts(nf, st, decl.Body.List, func(st *State) { kk(st, nil) })
 	}, func(st *State, rets []Val) {
+		final := st.vars
 		st.vars = cloneVars(saved)
+		if wb != nil {
+			wb(st, final)
+		}
 		k(st, rets)
+	})
+}
+
+// inlineLit runs the body of a function literal at a call of the local variable it is bound to. The literal's parameters are
+// fresh variables of the current activation; the variables it captures are the caller's own (same objects).
+func (e *Engine) inlineLit(caller *frame, st *State, lit *ast.FuncLit, argExprs []ast.Expr, k func(st *State, rets []Val)) {
+	if caller.depth > 12 {
+		panic("inlining depth exceeded at a function literal of " + caller.fn.FullName())
+	}
+	e.evalList(caller, st, argExprs, func(st *State, vs []Val) {
+		nf := &frame{fn: caller.fn, pkg: caller.pkg, info: caller.info, exits: caller.exits, depth: caller.depth + 1, ver: caller.ver, parent: caller}
+		i := 0
+		if lit.Type.Params != nil {
+			for _, f := range lit.Type.Params.List {
+				for _, n := range f.Names {
+					if i < len(vs) {
+						st.vars[caller.info.Defs[n]] = vs[i]
+					}
+					i++
+				}
+			}
+		}
+		nres := 0
+		if lit.Type.Results != nil {
+			nres = lit.Type.Results.NumFields()
+		}
+		e.mergeN(caller, st, nres, func(kk func(st *State, rets []Val)) {
+			nf.onRet = kk
+			e.stmts(nf, st, lit.Body.List, func(st *State) { kk(st, nil) })
+		}, k)
 	})
 }
 
@@ -912,12 +1128,16 @@ func (e *Engine) rangeLoop(fr *frame, st *State, label string, s *ast.RangeStmt,
 		run := func(st *State) {
 			mapRange := false
 			if xs.Ty.K == spec.KMap {
-				if !e.Sweep {
+				if !e.Sweep && !e.Go64 {
 					panic("range over a Go map (iteration order is unspecified): outside the subset")
 				}
-				// sweep mode: an unknown number of iterations over unknown keys and values (over-approximation)
+				// sweep mode: an unknown number of iterations over unknown keys and values (over-approximation);
+				// dialect go64: len(m) iterations, each over an unconstrained key and value (the real enumeration is one instance)
 				n := e.sym("maplen", "Int")
 				st.facts = append(st.facts, sx.App(">=", n, sx.Int(0)))
+				if e.Go64 && !e.Sweep {
+					st.facts = append(st.facts, sx.App("=", n, lenOf(xs)))
+				}
 				xs = mk(n, spec.KInt)
 				xs.Pair = nil
 				mapRange = true
@@ -1024,6 +1244,29 @@ func (e *Engine) stmt(fr *frame, st *State, s ast.Stmt, k func(st *State)) {
 		}
 		do(0, st)
 	case *ast.AssignStmt:
+		if ix, ok := s.Rhs[0].(*ast.IndexExpr); ok && len(s.Lhs) == 2 && len(s.Rhs) == 1 {
+			// v, ok := m[k]: ok is map_has(m, k); v is the stored value if ok, the zero value otherwise
+			e.eval(fr, st, ix.X, func(st *State, m Val) {
+				e.eval(fr, st, ix.Index, func(st *State, i Val) {
+					if m.Ty.K != spec.KMap {
+						panic("comma-ok index of " + m.Ty.Sort())
+					}
+					has := e.uf("map_has", spec.Type{K: spec.KBool}, m, i)
+					var vt spec.Type
+					if tup, isTup := info.Types[ix].Type.(*types.Tuple); isTup {
+						vt = e.typeOf(tup.At(0).Type())
+					} else {
+						vt = e.typeOf(info.Types[ix].Type)
+					}
+					got := e.convert(e.uf("map_get", spec.Type{K: spec.KAny}, m, i), vt)
+					val := Val{TV: spec.TV{T: sx.Ite(has.T, got.T, e.zero(vt)), Ty: vt}}
+					e.assign(fr, st, s.Lhs[0], e.name(st, val))
+					e.assign(fr, st, s.Lhs[1], has)
+					k(st)
+				})
+			})
+			return
+		}
 		if len(s.Lhs) > 1 && len(s.Rhs) == 1 {
 			e.call(fr, st, s.Rhs[0].(*ast.CallExpr), func(st *State, rets []Val) {
 				for i, l := range s.Lhs {
@@ -1729,6 +1972,13 @@ func (e *Engine) checkOverflow(fr *frame, st *State, typed ast.Expr, r Val) {
 		lo, hi = "-9223372036854775808", "9223372036854775807"
 	default:
 		return
+	}
+	if len(hi) > 12 {
+		for f := fr; f != nil; f = f.parent { // the function under contract (or one inlined into it) declares 64-bit arithmetic mathematical
+			if fs := e.specOf(f.fn); fs != nil && fs.WideInt {
+				return
+			}
+		}
 	}
 	base := fr.pkg.Types.Name() + "." + specKey(fr.fn)
 	line := fr.pkg.Fset.Position(typed.Pos()).Line
